@@ -42,7 +42,7 @@ def run(F, R, tier):
     # ---------------- C20-b / c ---------------------------------------------
     gb = F.body("graph::ModuleTextSource::try_get_original_bytes")
     mm = [n for n in gb["_nodes"] if n["k"] == "Match"]
-    if R.ob("C20-b", "byte recovery matches on the decode kind", len(mm) == 1 and "decoded_kind" in expr_text(mm[0]["scrut"]), "shape changed", gb["file"]):
+    if R.ob("C20-b", "byte recovery matches on the decode kind", len(mm) == 1 and mentions_field(mm[0]["scrut"], "decoded_kind"), "shape changed", gb["file"]):
         covered = set()
         ca = False
         for arm in mm[0]["arms"]:
@@ -100,11 +100,11 @@ def run(F, R, tier):
             for d in local_defs(ns, cs["lid"]):
                 if d[0] == "let":
                     i = peel(d[1])
-                    if i.get("k") == "MethodCall" and i["name"] == "unwrap_or_else" and peel_value(i["recv"]).get("name") == "maybe_charset":
+                    if i.get("k") == "MethodCall" and i["name"] == "unwrap_or_else" and peel_value(i["recv"]).get("lid") == ns["body"]["params"][2].get("lid"):
                         det = [x for x in walk(i["args"][0]) if x.get("k") == "Call" and (x.get("fn") or "").endswith("encoding::detect_charset")]
-                        ok = len(det) == 1 and peel_value(det[0]["args"][0]).get("name") == "specifier" and "bytes" in expr_text(det[0]["args"][1])
+                        ok = len(det) == 1 and peel_value(det[0]["args"][0]).get("lid") == ns["body"]["params"][0].get("lid") and any(z.get("lid") == ns["body"]["params"][1].get("lid") for z in walk(det[0]["args"][1]))
         R.ob("C20-d", "charset = explicit header charset, else detected from BOM / specifier", ok, "charset argument is `%s`" % expr_text(dec[0]["args"][0]), where(dec[0]))
-        R.ob("C20-d", "the decoded bytes are the loader's bytes", peel_value(dec[0]["args"][1]).get("name") == "bytes", "decodes `%s`" % expr_text(dec[0]["args"][1]), where(dec[0]))
+        R.ob("C20-d", "the decoded bytes are the loader's bytes", peel_value(dec[0]["args"][1]).get("lid") == ns["body"]["params"][1].get("lid"), "decodes `%s`" % expr_text(dec[0]["args"][1]), where(dec[0]))
         de = [n for n in ns["_nodes"] if ctor_of(n) == "graph::ModuleLoadError::Decode"]
         R.ob("C20-d", "undecodable input becomes a Decode error", len(de) == 1 and any(n.get("k") == "MethodCall" and n["name"] == "map_err" for n in ns["_nodes"]), "decode failure no longer mapped to ModuleLoadError::Decode", ns["file"])
     callers = [n for n in F.all_nodes() if callee_matches(n, ["graph::new_source_with_text"])]
